@@ -29,15 +29,27 @@ def _kwargs(o):
     return kw
 
 
-def _fit_compare(ref, tra, o, corpus, other, facts, tol, stage=""):
+def _as(kind, docs):
+    """the documents as scikit-learn documents them: 'an iterable which generates str' - a list, a tuple, or something that can be read
+    only once (an iterator, a generator, lines of an open file); a fresh one for every call"""
+    if kind == "tuple":
+        return tuple(docs)
+    if kind == "iterator":
+        return iter(list(docs))
+    if kind == "generator":
+        return (d for d in list(docs))
+    return list(docs)
+
+
+def _fit_compare(ref, tra, o, corpus, other, facts, tol, stage="", container="list"):
     """fits both on the corpus and compares everything; returns None when both refuse, else (names_label, removed)"""
     ref_exc = tra_exc = None
     try:
-        mref = ref.fit_transform(corpus)
+        mref = ref.fit_transform(_as(container, corpus))
     except ValueError as e:
         ref_exc = e
     try:
-        mtra = tra.fit_transform(corpus)
+        mtra = tra.fit_transform(_as(container, corpus))
     except ValueError as e:
         tra_exc = e
     if ref_exc is not None or tra_exc is not None:
@@ -64,8 +76,8 @@ def _fit_compare(ref, tra, o, corpus, other, facts, tol, stage=""):
     require(joined == {k: int(v) for k, v in ref.vocabulary_.items()}, "vocabulary:differs" + stage,
             "traceable (joined) %r\nscikit-learn %r" % (sorted(joined.items()), sorted(ref.vocabulary_.items())), facts)
     same(mref, mtra, "fit_transform")
-    same(ref.transform(other), tra.transform(other), "transform")
-    same(ref.transform(corpus), tra.transform(corpus), "transform-train")
+    same(ref.transform(_as(container, other)), tra.transform(_as(container, other)), "transform")
+    same(ref.transform(_as(container, corpus)), tra.transform(_as(container, corpus)), "transform-train")
     names_label = "names-ok"
     try:
         names = tra.get_feature_names_out()
@@ -110,7 +122,9 @@ def check(case):
         return dict(kind=o["kind"], stop_words=("list" if isinstance(o["stop_words"], list) else o["stop_words"]),
                     ngram_max=o["ngram_range"][1], ngram_min=o["ngram_range"][0])
     facts = facts_of(o)
-    first = _fit_compare(ref, tra, o, corpus, other, facts, tol)
+    cont = case.get("container", "list")
+    facts["container"] = cont
+    first = _fit_compare(ref, tra, o, corpus, other, facts, tol, container=cont)
     a, b = o["ngram_range"]
     labels = [o["kind"]]
     if first is None:
@@ -128,10 +142,11 @@ def check(case):
         kw2 = _kwargs(o2)
         ref.set_params(**kw2)
         tra.set_params(**kw2)
-        second = _fit_compare(ref, tra, o2, corpus, other, dict(facts_of(o2), reconfigured=True), tol, stage=":after-set_params")
+        second = _fit_compare(ref, tra, o2, corpus, other, dict(facts_of(o2), reconfigured=True), tol, stage=":after-set_params", container=cont)
         labels.append("reconfigured" + (":both-refuse" if second is None else (":ngram-range-changed" if o2["ngram_range"] != o["ngram_range"] else "")))
     if case.get("long"):
         labels.append("long-document")
+    labels.append("corpus:" + cont)
     if first is None:
         return Outcome(labels, False)
     return Outcome(labels, b >= 2 or o["stop_words"] is not None or removed)
@@ -173,7 +188,7 @@ def _cases(draw, tier="quick"):
         for _ in range(draw(st.integers(1, 2))):
             long.append(dict(pattern=draw(st.lists(st.sampled_from(WORDS), min_size=3, max_size=11)),
                              length=draw(st.sampled_from([257, 511, 512, 513, 600, 1023, 1025, 1500, 2049])), where=draw(st.sampled_from(["corpus", "other"]))))
-    return dict(corpus=corpus, other=other, options=o, options2=o2, long=long)
+    return dict(corpus=corpus, other=other, options=o, options2=o2, long=long, container=draw(st.sampled_from(["list", "list", "tuple", "iterator", "generator"])))
 
 
 CLAUSES = [
